@@ -189,11 +189,17 @@ def run(rep, facts, tier):
 
 
 def check_emit(rep, fx):
-    f = fx.need('bitstr_ext::word_emit')
+    from .. import inline
+    from ..logfx import _subst_upvars
+    V = inline.View(fx)
+    fx.need('bitstr_ext::word_emit')
+    f = V('bitstr_ext::word_emit')       # unnamed helpers of emit are looked through
     # who may write output / output_len
     n = 0
     for fn in sorted(fx.fns):
-        g = fx.fns[fn]
+        if V.transparent(fn) and fx.callers().get(fn):
+            continue
+        g = V(fn)
         for bb, t in g.calls():
             if callee_of(t) in WRITERS and len(t['args']) > 1:
                 cell = cell_of(g, t['args'][1])
@@ -229,7 +235,7 @@ def check_emit(rep, fx):
             for (bb, i, cls, d) in return_defs(cf):
                 if cls != 'ok':
                     continue
-                e0 = cf.expr_of_local(0)
+                e0 = _subst_upvars(cf.expr_of_local(0), clo[2])      # captured values written in emit's terms
                 for x in expr_walk(e0):
                     if isinstance(x, tuple) and x[0] == 'call' and 'From<usize>' in x[1] and x[2]:
                         v = x[2][0]
@@ -244,6 +250,8 @@ def check_emit(rep, fx):
                             names = sorted(z[1] for z in (a, b) if isinstance(z, tuple) and z[0] == 'call')
                             if names == ['bitstr::Bitstr::len', 'cell::Cell::to_usize']:
                                 adds_len = True
+                                lens = [z for z in (a, b) if isinstance(z, tuple) and z[0] == 'call' and z[1] == 'bitstr::Bitstr::len']
+                                captured = expr_str(lens[0], -30)
         from_pop = 'pop_data' in captured and 'to_bitstr' in captured
         ok_len = adds_len and from_pop
         why = ('output-length += len(bs) for the popped bit-string bs' if ok_len else
